@@ -42,13 +42,15 @@ CHECKS = {
    technique="contract-based deductive verification (Verus requires/ensures + representation invariant on in-place annotated real code; Kani bounded harness for restore)",
    ref="§4.1"),
  'C13': dict(
-   text="Proof (mark-bit layer and dropped-heap handle layer only): Kani contracts on the real ChunkBitmask::{get,set,clear,default,iter_unmarked} and UnmarkedIter::next - including the unsafe "
+   text="Proof for the mark-bit, handle and pooling layers; mark/sweep/collect only by a bounded native stand-in. Kani contracts on the real ChunkBitmask::{get,set,clear,default,iter_unmarked} and UnmarkedIter::next - including the unsafe "
         "get_unchecked accesses - over all 2^256 masks and all indices < 256: exact bit semantics, no out-of-bounds access, and iter_unmarked enumerates exactly the clear "
         "bits below len in ascending order (init + step contracts, induction on position argued in 3 lines); and on Gc::clone / Gc::drop / Guard::guard / Guard::drop for a handle "
-        "or guard whose heap has been dropped (the box is really freed in the harness): no access to the freed box, clone returns the same handle, guard is a no-op. "
+        "or guard whose heap has been dropped (the box is really freed in the harness): no access to the freed box, clone returns the same handle, guard is a no-op; Guard::guard on a live heap roots "
+        "only unpooled objects; Space::pool_object is idempotent; alloc_internal's reuse path returns the slot reset. Space::mark/sweep/collect, which Kani could not decide, are covered by a BOUNDED "
+        "native stand-in only: every history of <= 8 operations over <= 2 guards and <= 3 objects against a reachability model, plus long random histories (never counted as proved). "
         "Loops unwound past their structural bound with the unwinding assertion on, so the harnesses are complete, not bounded.",
-   note="Trusted: Kani/CBMC. NOT carried (and not claimed): guard reachability = liveness, Space::mark traversal, sweep/pool reuse, stale-handle ref-counts after slot reuse "
-        "- they live in Rc<RefCell>/NonNull code outside both verifiers (DESIGN §4.4). Callers are assumed to pass index % CHUNK_CAPACITY and len <= 256.",
+   note="Trusted: Kani/CBMC. NOT proved: guard reachability through Space::mark's traversal and sweep (bounded stand-in only) - Rc<RefCell>/NonNull code outside both verifiers "
+        "(DESIGN §4.4). One known finding is recorded: stale handles dropped after slot reuse reset a rooted object. Callers are assumed to pass index % CHUNK_CAPACITY and len <= 256.",
    technique="contract-based deductive verification (Kani assume-pre/call/assert-post contracts inside the real crate, full input domain, loop-free or width-bounded)",
    ref="§4.4"),
  'C20': dict(
